@@ -12,6 +12,7 @@ Verdicts: an obligation is *discharged* on a path iff `pc AND NOT obligation` is
 """
 import fractions
 import itertools
+import random as _pyrandom
 import math
 import numbers
 import time
@@ -774,6 +775,7 @@ def explore(harness, *, max_paths=200000, timeout_ms=15000, seed=0, max_violatio
         ctx = Ctx(prefix, timeout_ms=timeout_ms, seed=seed)
         Ctx.cur = ctx
         obls = None
+        _pyrandom.seed(20260927)      # the stdlib generator (used by the library's construction-time self-check) is replayed identically on every path
         try:
             obls = harness(ctx)
         except PathAbort:
